@@ -92,3 +92,19 @@ U64_BOUNDARY = sorted(set(
     [U64_MAX, U64_MAX - 1, U64_MAX - 2, 4294967295, 4294967296, 4294967297, 6074000999,
      I64_MAX, I64_MAX + 1, I64_MAX + 2, 3037000499, 3037000500, 4294967295 * 2,
      (1 << 64) // 3, (1 << 64) // 3 + 1, (1 << 63) + (1 << 62), 1000000007, 999999999999]))
+
+
+def norm_log(log):
+    """Host-call logs are compared as JSON; NaN payload / sign bits are not part of a value."""
+    def n(x):
+        if isinstance(x, dict):
+            if len(x) == 1 and 'd' in x and isinstance(x['d'], int):
+                b = x['d']
+                if (b & 0x7ff0000000000000) == 0x7ff0000000000000 and (b & 0x000fffffffffffff):
+                    return {"d": "NaN"}
+                return x
+            return {k: n(v) for k, v in x.items()}
+        if isinstance(x, list):
+            return [n(v) for v in x]
+        return x
+    return n(log or [])
